@@ -34,7 +34,7 @@ let run () =
             incr nops;
             (match Hashtbl.find_opt handles ("h" ^ h) with Some b -> ops := LDealloc (zi b) :: !ops | None -> diverge "release of unknown handle" line)
           | "mv" :: _, _ -> incr nops; ops := LMoveConstruct :: !ops
-          | "ma" :: w :: _, _ -> incr nops; ops := LMoveAssignOnto (zi (if w = "used" then 1 else 0)) :: !ops
+          | "ma" :: w :: _, rhs -> incr nops; ops := LMoveAssignOnto (zi (if w = "used" && not (List.mem "held=0" rhs) then 1 else 0)) :: !ops
           | "destroy" :: _, _ ->
             seen_destroy := true;
             let all = String.concat " " rest in
